@@ -51,6 +51,10 @@ CLAIMED = {
          "One TableTablets::add_tablet step from an ARBITRARY invariant-satisfying pre-state of N tablets (N <= 4 quick, <= 6 thorough; all bounds symbolic i64) followed by tablet_for_token on an arbitrary token: list stays sorted/disjoint, exactly the overlapped tablets disappear, lookup = newest covering tablet or nothing (never stale).",
          "Vec/slice operations are modelled as sequence operations (partition_point on partitioned slices, drain, insert, get). TabletsInfo (hash map per table), perform_maintenance, per-DC restriction and RawTablet::from_custom_payload validation are NOT decided.",
          S + " (+ one Kani cross-check on the empty list)"),
+ "C16": ("DESIGN.md §5 C16",
+         "Derived SerializeValue, by-name flavour, 3-field structs (plain, #[allow_missing] on the first / second field, forbid_excess_udt_fields): the code generated by the derive macro (MIR of the harness crate, regenerated from /repo/scylla-macros on every run) is symbolically executed for 25 database-side field lists - all 6 permutations, every single missing field, an unknown field at every position - with all field values symbolic: values land in the database's positions, unknown fields become null cells unless trailing (or an error when forbidden), a missing field is an error unless it is allow_missing.",
+         "Only SerializeValue/by-name is decided. NOT decided: DeserializeValue, SerializeRow/DeserializeRow, enforce_order flavour, rename/skip/flatten/default_when_null, >3 fields, non-i32 fields. (Kani on the same generated code did not finish in 25 min.)",
+         S),
  "C17": ("DESIGN.md §5 C17",
          "Type-check matrix: for each of 19 native carriers (integers, floats, bool, Counter, date/time/timestamp, uuid/timeuuid, inet, String, blob, varint, decimal, duration) the column type ranges symbolically over all 20 native CQL types: serialization succeeds and type_check passes iff the documented mapping allows the pair, and a refused value writes no byte; container carriers (Vec, BTreeSet, BTreeMap, tuple - empty ones included) are refused by every native column. Rollback: after a failing add_value (top-level mismatch; thorough: nested tuple failure after a partial write) SerializedValues is byte-for-byte and count-for-count unchanged, the count equals the number of encoded cells, and the object stays usable.",
          "Column types are natives (non-native columns against native carriers and two-level container mismatches are not in the quick tier); the too-many-values failure kind needs 65535 prior cells and is outside; error-path stubs as in C01 (ColumnType::clone, Arc::drop_slow).",
